@@ -26,6 +26,23 @@ class IntAttr:
         obj.__dict__[self.slot] = core.trunc_to_int(v) if not isinstance(v, int) else v
 
 
+class ArrAttr:
+    """C array attribute of a cdef class (e.g. `int shape[3]`): zero-initialised per instance"""
+    def __init__(self, name, n):
+        self.slot, self.n = '_sxa_' + name, n
+
+    def __get__(self, obj, tp=None):
+        if obj is None:
+            return self
+        d = obj.__dict__
+        if self.slot not in d:
+            d[self.slot] = [0] * self.n
+        return d[self.slot]
+
+    def __set__(self, obj, v):
+        obj.__dict__[self.slot] = list(v)
+
+
 def cdef_method(fn):
     fn._sx_cdef_ = True
     return fn
@@ -33,6 +50,7 @@ def cdef_method(fn):
 
 class Runtime:
     IntAttr = IntAttr
+    ArrAttr = ArrAttr
     cdef_method = staticmethod(cdef_method)
 
     @staticmethod
